@@ -349,30 +349,7 @@ func (e *Exec) havocByModset(ms map[string]bool, res *types.Tuple, tag string) V
 	if ms["next"] {
 		nn := Fresh("next$"+tag, SInt)
 		e.assume(Implies(e.guard(), Ge(nn, e.curState.next)))
-		if rc := e.root().C; rc != nil && rc.Flags["closed_alloc"] {
-			// flag closed_alloc of the function being verified: the objects a callee allocates are of the struct types its
-			// body (transitively) allocates - none of the repository's other struct types appears among the new objects.
-			// (Sound for repository callees: the pseudo components alloc:<type> are collected from the bodies; library
-			// models never allocate a repository struct.)
-			var conj []*Term
-			r := BoundVar("r", SInt)
-			for _, t := range typeTagList {
-				if t == nil {
-					continue
-				}
-				nt, ok := t.(*types.Named)
-				if !ok || nt.Obj().Pkg() == nil || !strings.HasPrefix(nt.Obj().Pkg().Path(), repoModule) {
-					continue
-				}
-				if _, ok := t.Underlying().(*types.Struct); !ok || ms["alloc:"+typeKey(t)] {
-					continue
-				}
-				conj = append(conj, Neq(RType(r), tagOf(t)))
-			}
-			if len(conj) > 0 {
-				e.assume(Implies(e.guard(), Forall([]*Term{r}, Implies(And(Le(e.curState.next, r), Lt(r, nn)), And(conj...)), []*Term{RType(r)})))
-			}
-		}
+		e.assumeClosedAlloc(ms, e.curState.next, nn)
 		e.curState.next = nn
 	}
 	return e.freshResults(res, tag)
@@ -585,4 +562,34 @@ func (e *Exec) invoke(c *ssa.CallCommon, recv *Term, args []Val) Val {
 	e.root().Havocked["interface call "+c.Method.FullName()+" (unmodelled)"] = true
 	e.safety("nilderef", Neq(ITag(recv), IntLit(0)))
 	return e.havocCall(c.Signature().Results(), c.Method.Name())
+}
+
+// assumeClosedAlloc (contract flag closed_alloc of the function being verified): the objects allocated between the
+// allocation counters lo and hi by a callee or by earlier iterations of a loop are of the struct types that code
+// (transitively) allocates - none of the repository's other struct types appears among the new objects. Sound for
+// repository code: the pseudo components alloc:<type> are collected from the bodies together with the mod-set; library
+// models never allocate a repository struct.
+func (e *Exec) assumeClosedAlloc(ms map[string]bool, lo, hi *Term) {
+	rc := e.root().C
+	if rc == nil || !rc.Flags["closed_alloc"] || ms["*"] || ms["alloc:*"] {
+		return
+	}
+	var conj []*Term
+	r := BoundVar("r", SInt)
+	for _, t := range typeTagList {
+		if t == nil {
+			continue
+		}
+		nt, ok := t.(*types.Named)
+		if !ok || nt.Obj().Pkg() == nil || !strings.HasPrefix(nt.Obj().Pkg().Path(), repoModule) {
+			continue
+		}
+		if _, ok := t.Underlying().(*types.Struct); !ok || ms["alloc:"+typeKey(t)] {
+			continue
+		}
+		conj = append(conj, Neq(RType(r), tagOf(t)))
+	}
+	if len(conj) > 0 {
+		e.assume(Implies(e.guard(), Forall([]*Term{r}, Implies(And(Le(lo, r), Lt(r, hi)), And(conj...)), []*Term{RType(r)})))
+	}
 }
